@@ -1057,3 +1057,32 @@ Theorem rest_roundtrip doc ps ret :
   clean doc = true -> forallb param_ok ps = true -> NoDup (map fst ps) -> ps <> [] -> ret_ok ret = true ->
   parse_rest (emit_rest true doc ps ret) = {| p_doc := doc; p_params := ps; p_ret := ret |}.
 Proof. intros Hd Hp Hnd Hne Hr. rewrite emit_is_render by assumption. apply parse_render; auto. Qed.
+
+(* ================= 10. emit_types = False: the same text as for the description without its types ================= *)
+Definition drop_typ (e : pentry) : pentry := {| pe_doc := pe_doc e; pe_typ := None |}.
+Definition drop_typs (ps : list (str * pentry)) : list (str * pentry) := map (fun p => (fst p, drop_typ (snd p))) ps.
+
+Lemma lines_of_false key key_typ e : lines_of key key_typ false e = lines_of key key_typ true (drop_typ e).
+Proof. unfold lines_of, drop_typ. cbn [pe_doc pe_typ nonempty]. destruct (nonempty (pe_typ e)); reflexivity. Qed.
+
+Lemma args_returns_false ps ret : args_returns false ps ret = args_returns true (drop_typs ps) (option_map drop_typ ret).
+Proof.
+  unfold args_returns, drop_typs. rewrite map_map.
+  assert (E : map (emit_param false) ps = map (fun x => emit_param true (fst x, drop_typ (snd x))) ps).
+  { apply map_ext. intros [n e]. unfold emit_param. cbn [fst snd]. rewrite lines_of_false. reflexivity. }
+  rewrite E. destruct ret as [r|]; cbn [option_map]; [|reflexivity].
+  unfold emit_return. rewrite lines_of_false. reflexivity.
+Qed.
+
+Theorem emit_false_is_emit_true_without_types doc ps ret :
+  emit_rest false doc ps ret = emit_rest true doc (drop_typs ps) (option_map drop_typ ret).
+Proof. unfold emit_rest. rewrite args_returns_false. reflexivity. Qed.
+
+Theorem rest_roundtrip_no_types doc ps ret :
+  clean doc = true -> forallb param_ok (drop_typs ps) = true -> NoDup (map fst ps) -> ps <> [] -> ret_ok (option_map drop_typ ret) = true ->
+  parse_rest (emit_rest false doc ps ret) = {| p_doc := doc; p_params := drop_typs ps; p_ret := option_map drop_typ ret |}.
+Proof.
+  intros Hd Hp Hnd Hne Hr. rewrite emit_false_is_emit_true_without_types. apply rest_roundtrip; auto.
+  - unfold drop_typs. rewrite map_map. cbn [fst]. exact Hnd.
+  - destruct ps; [contradiction | discriminate].
+Qed.
